@@ -24,7 +24,7 @@ func constInt(v ssa.Value) (int64, bool) {
 }
 
 func checkC12(w *World, r *Report) {
-	r.Decides = "C12 is decided in its structural part only: (a) encoder and decoder agree on the layout: a header of keyHeaderLen bytes whose version byte sits at the same position on both sides, one type byte at offset 0 of the body, the key from offset 1; (b) user bytes pass verbatim: the encoder uses the key only as the source of a copy into a freshly sized buffer, the decoder returns a sub-slice of its input; (c) constant prefix per key space: only the version byte of the header is ever stored, user and system type constants are distinct and ordered user < system, bookkeeping key names are non-empty and start with a byte > 0; (d) range bounds and bookkeeping keys go through the same encoder (the obligations C01.f/g), and a reused buffer is reset before the next key is encoded into it; (e) the export walks the whole key space unbounded and selects by the decoded key type (C07.d) - a bound computed from a 'minimum key' constant is a statement about byte order that does not hold for shorter keys. Injectivity, round trip and order preservation then follow from the lemma 'k -> c ++ k is injective and monotone for a fixed c', which is mathematics and the stated assumption."
+	r.Decides = "C12 is decided in its structural part only: (a) encoder and decoder agree on the layout: a header of keyHeaderLen bytes whose version byte sits at the same position on both sides, one type byte at offset 0 of the body, the key from offset 1; (b) user bytes pass verbatim: the encoder uses the key only as the source of a copy into a freshly sized buffer, the decoder returns a sub-slice of its input; (c) constant prefix per key space: only the version byte of the header is ever stored, user and system type constants are distinct and ordered user < system, bookkeeping key names are non-empty and start with a byte > 0; (d) range bounds and bookkeeping keys go through the same encoder (the obligations C01.f/g), and a reused buffer is reset before the next key is encoded into it; (e) the export walks the whole key space unbounded and selects by the decoded key type (C07.d) - a bound computed from a 'minimum key' constant is a statement about byte order that does not hold for shorter keys. Injectivity, round trip and order preservation then follow from the lemma 'k -> c ++ k is injective and monotone for a fixed c', which is mathematics and the stated assumption. (f) every ordering function of the store's comparer is the bytewise default, Split is the identity split."
 	r.NotDecided = []string{"the arithmetic of the wildcard bound increment", "keys longer than the streaming Decoder's body limit (the unused Decoder would truncate them; DecodeBytes does not)"}
 	r.Assume = []string{"lemma: prefixing with a constant is injective and order preserving under bytewise comparison"}
 	c12Layout(w, r, "C12", ".a", ".b", ".c")
@@ -35,6 +35,7 @@ func checkC12(w *World, r *Report) {
 	}
 	c12BufferReuse(w, r, "C12.d3", "d3-encode-into-empty-buffer")
 	c07UserPairs(w, r, "C12.e", "e-export-covers-key-space")
+	c12Comparer(w, r, "C12.f", "f-bytewise-comparer")
 }
 
 // c12Layout: the obligations C12.a-c (layout agreement, verbatim bytes, constant prefix), shared
@@ -375,6 +376,84 @@ func c12BufferReuse(w *World, r *Report, id, slug string) {
 		}
 	}
 	n := 0
+	// returns after which the function may run again on the same buffer: not an error return, not `false`
+	liveReturn := func(x ssa.Instruction) bool {
+		ret, ok := x.(*ssa.Return)
+		if !ok || isErrorReturn(ret) {
+			return false
+		}
+		if len(ret.Results) > 0 && isConstBool(retVal(ret, 0), false) {
+			return false
+		}
+		return true
+	}
+	// check: `in` (in fn) leaves key bytes in buf (the encode itself, or a call of a function that
+	// encodes into the buffer it is given and returns without emptying it)
+	var check func(fn *ssa.Function, in ssa.Instruction, buf ssa.Value, depth int)
+	check = func(fn *ssa.Function, in ssa.Instruction, buf ssa.Value, depth int) {
+		switch b := buf.(type) {
+		case *ssa.FreeVar:
+			ob.Site(in.Pos(), "encode into the captured buffer "+b.Name()+" in "+FnName(fn))
+			if p := (&Walk{Barrier: isReset(buf), Target: liveReturn}).Find(after(in)); p != nil {
+				ob.Violate("encode-buffer-not-reset@"+FnName(fn), in.Pos(), "the closure can return (other than with an error or false) with the captured buffer still holding the encoded key: the next key is appended to it", w.PathString(p)...)
+			}
+		case *ssa.Parameter:
+			// the caller's buffer: either this function empties it before every return after
+			// which it may be called again, or each caller does on its way round
+			ob.Site(in.Pos(), "encode into the buffer parameter "+b.Name()+" of "+FnName(fn))
+			if (&Walk{Barrier: isReset(buf), Target: liveReturn}).Find(after(in)) == nil {
+				return
+			}
+			idx := -1
+			for i, p := range fn.Params {
+				if p == b {
+					idx = i
+				}
+			}
+			var sites []ssa.CallInstruction
+			if fn.Parent() != nil {
+				// a literal invoked where it is written
+				for _, f2 := range w.ModFuncs() {
+					eachInstr(f2, func(x ssa.Instruction) {
+						if c := callOf(x); c != nil {
+							if mc, ok := c.Value.(*ssa.MakeClosure); ok && mc.Fn == fn {
+								sites = append(sites, x.(ssa.CallInstruction))
+							} else if c.Value == ssa.Value(fn) {
+								sites = append(sites, x.(ssa.CallInstruction))
+							}
+						}
+					})
+				}
+			} else {
+				sites = w.CallersOf(fn)
+			}
+			if idx < 0 || len(sites) == 0 || depth > 2 {
+				ob.Violate("encode-buffer-not-reset@"+FnName(fn), in.Pos(), FnName(fn)+" can return (other than with an error or false) with the buffer it was given still holding the encoded key, and its callers cannot be followed")
+				return
+			}
+			for _, cs := range sites {
+				args := cs.Common().Args
+				if idx >= len(args) {
+					continue
+				}
+				check(cs.Parent(), cs, root(args[idx]), depth+1)
+			}
+		default:
+			// obtained in this function: a problem only if obtained before a loop the encode is in
+			h, body := loopOf(in.Block())
+			if h == nil {
+				return
+			}
+			def, ok := buf.(ssa.Instruction)
+			if ok && def.Block() != nil && body[def.Block()] {
+				return // a fresh buffer per iteration
+			}
+			ob.Site(in.Pos(), "encode inside a loop into a buffer obtained before it in "+FnName(fn))
+			if p := (&Walk{Barrier: isReset(buf), Target: func(x ssa.Instruction) bool { return x.Block() == h && x == h.Instrs[0] }, EdgeOK: func(bb *ssa.BasicBlock, k int) bool { return body[bb.Succs[k]] }}).Find(after(in)); p != nil {
+				ob.Violate("encode-buffer-not-reset@"+FnName(fn), in.Pos(), "the loop can come round again with the buffer still holding the encoded key: the next key is appended to it", w.PathString(p)...)
+			}
+		}
+	}
 	for _, fn := range w.ModFuncs() {
 		if !isFsmFunc(fn) || isGenerated(fn) {
 			continue
@@ -384,44 +463,80 @@ func c12BufferReuse(w *World, r *Report, id, slug string) {
 			if c == nil || StaticCallee(c) != enc {
 				return
 			}
-			buf := root(c.Args[0])
 			n++
-			switch b := buf.(type) {
-			case *ssa.FreeVar:
-				ob.Site(in.Pos(), "encode into the captured buffer "+b.Name()+" in "+FnName(fn))
-				// returns after which the closure may run again: not an error return, not `false`
-				tgt := func(x ssa.Instruction) bool {
-					ret, ok := x.(*ssa.Return)
-					if !ok || isErrorReturn(ret) {
-						return false
-					}
-					if len(ret.Results) > 0 && isConstBool(retVal(ret, 0), false) {
-						return false
-					}
-					return true
-				}
-				if p := (&Walk{Barrier: isReset(buf), Target: tgt}).Find(after(in)); p != nil {
-					ob.Violate("encode-buffer-not-reset@"+FnName(fn), in.Pos(), "the closure can return (other than with an error or false) with the captured buffer still holding the encoded key: the next key is appended to it", w.PathString(p)...)
-				}
-			default:
-				// obtained in this function: a problem only if obtained before a loop the encode is in
-				h, body := loopOf(in.Block())
-				if h == nil {
-					return
-				}
-				def, ok := buf.(ssa.Instruction)
-				if ok && def.Block() != nil && body[def.Block()] {
-					return // a fresh buffer per iteration
-				}
-				ob.Site(in.Pos(), "encode inside a loop into a buffer obtained before it in "+FnName(fn))
-				if p := (&Walk{Barrier: isReset(buf), Target: func(x ssa.Instruction) bool { return x.Block() == h && x == h.Instrs[0] }, EdgeOK: func(bb *ssa.BasicBlock, k int) bool { return body[bb.Succs[k]] }}).Find(after(in)); p != nil {
-					ob.Violate("encode-buffer-not-reset@"+FnName(fn), in.Pos(), "the loop can come round again with the buffer still holding the encoded key: the next key is appended to it", w.PathString(p)...)
-				}
-			}
+			check(fn, in, root(c.Args[0]), 0)
 		})
 	}
 	if n == 0 {
 		ob.Undecided("shape", "no call of the user-key encoder found")
 	}
 	ob.NeedFloor(1)
+}
+
+// c12Comparer: the store orders keys bytewise. Every ordering function of the comparer the table
+// DBs are opened with is the default (bytewise) comparer's; only Split (the whole key is the
+// prefix) and the name are the repository's own.
+func c12Comparer(w *World, r *Report, id, slug string) {
+	ob := r.Ob(id, slug, "in every composite literal of pebble.Comparer in the module the fields Compare, Equal, AbbreviatedKey, Separator, Successor and ImmediateSuccessor are loaded from the same field of pebble.DefaultComparer, and Split is a function that returns len of its argument on every path", "the byte order of encoded keys is the order of the store only under the bytewise comparer; a hand-written AbbreviatedKey that disagrees with Compare misorders the skiplist of an indexed batch: range reads inside an apply call skip keys written earlier in the same call")
+	n := 0
+	for _, fn := range w.ModFuncs() {
+		if isGenerated(fn) {
+			continue
+		}
+		eachInstr(fn, func(in ssa.Instruction) {
+			st, ok := in.(*ssa.Store)
+			if !ok {
+				return
+			}
+			fa, ok := st.Addr.(*ssa.FieldAddr)
+			if !ok {
+				return
+			}
+			// pebble.Comparer is an alias of internal/base.Comparer
+			if nt, isN := deref(fa.X.Type()).(*types.Named); !isN || nt.Obj().Name() != "Comparer" || nt.Obj().Pkg() == nil || !strings.HasPrefix(nt.Obj().Pkg().Path(), pebblePath) {
+				return
+			}
+			f := fieldAddrName(fa)
+			switch f {
+			case "Compare", "Equal", "AbbreviatedKey", "Separator", "Successor", "ImmediateSuccessor":
+				n++
+				e := Expr(st.Val)
+				ob.Site(in.Pos(), "comparer."+f+" = "+e)
+				if !strings.HasSuffix(e, "DefaultComparer."+f) {
+					ob.Violate("comparer-field/"+f, in.Pos(), "the comparer's "+f+" is `"+e+"`, not the bytewise default: the store no longer orders (or abbreviates) keys the way the key encoding assumes")
+				}
+			case "Split":
+				n++
+				var sf *ssa.Function
+				v := st.Val
+				for d := 0; d < 3; d++ {
+					switch x := v.(type) {
+					case *ssa.ChangeType:
+						v = x.X
+					case *ssa.MakeClosure:
+						v = x.Fn
+					}
+				}
+				sf, _ = v.(*ssa.Function)
+				ob.Site(in.Pos(), "comparer.Split = "+Expr(st.Val))
+				okSplit := sf != nil && sf.Blocks != nil && len(sf.Params) == 1
+				if okSplit {
+					eachInstr(sf, func(x ssa.Instruction) {
+						if ret, ok := x.(*ssa.Return); ok {
+							if len(ret.Results) != 1 || Expr(ret.Results[0]) != "len($0)" {
+								okSplit = false
+							}
+						}
+					})
+				}
+				if !okSplit {
+					ob.Violate("comparer-split", in.Pos(), "the comparer's Split is not the identity split (len of the key): prefix seeks no longer mean exact-key seeks")
+				}
+			}
+		})
+	}
+	if n == 0 {
+		ob.Undecided("shape", "no pebble.Comparer literal found in the module")
+	}
+	ob.NeedFloor(7)
 }
